@@ -96,7 +96,8 @@ SYNTH = [
     ('syn_assoc', [204004, 31021, 1001, 12101, 204000], [[1, 3, 5, 2, 273.15]], False),
     ('syn_assoc2', [204004, 31021, 1001, 12101, 204000], [[1, 3, 5, 2, 273.15], [1, 0, 9, 1, 280.0]], False),
     ('syn_assoc2c', [204004, 31021, 1001, 12101, 204000], [[1, 3, 5, 2, 273.15], [1, 0, 9, 1, 280.0]], True),
-    ('syn_201_202', [201130, 12101, 201000, 202129, 12101, 202000, 1001], [[273.15, 273.15, 5]], False),
+    ('syn_201_202', [201130, 12101, 201000, 202129, 12101, 202000, 1001], [[273.15, 20.5, 5]], False),
+    ('syn_201_rep', [201129, 103002, 12101, 10004, 1001, 201000, 12101], [[273.15, 100000.0, 5, 280.0, 90000.0, 6, 250.0]], False),
     ('syn_203', [203010, 1001, 203255, 1001], [[5, 7]], False),
     ('syn_rep', [101000, 31001, 1001, 103002, 1001, 1002, 12101], [[2, 4, 5, 1, 2, 273.15, 3, 4, 280.0]], False),
     ('syn_208', [208002, 1015, 208000, 1015], [['ab', 'abcdefghijklmnopqrst']], False),
@@ -237,6 +238,20 @@ def build_pool():
 
 _POOL = None
 
+PRELOAD = ['harness.props.c13', 'pybufrkit.decoder', 'pybufrkit.encoder', 'pybufrkit.renderer', 'pybufrkit.dataquery',
+           'pybufrkit.mdquery', 'pybufrkit.templatecompiler', 'pybufrkit.tables']
+
+
+def pristine_pool(pool_path, nproc):
+    """Worker pool in which EVERY task runs in a process of its own that has executed nothing of pybufrkit but its imports:
+    a fork server is started as a new interpreter (spawn), imports the modules of PRELOAD and the input pool, and forks one
+    child per task (maxtasksperchild=1, chunksize=1).  The state of such a child is that of a fresh interpreter right after
+    `import pybufrkit...`; a sample of the reference operations is cross-checked in interpreters started from scratch."""
+    os.environ['C13_POOL'] = pool_path
+    c = multiprocessing.get_context('forkserver')
+    c.set_forkserver_preload(PRELOAD)
+    return c.Pool(nproc, maxtasksperchild=1)
+
 
 def load_pool(path):
     global _POOL
@@ -246,6 +261,13 @@ def load_pool(path):
                         'jsons': {j['name']: j['text'] for j in p['jsons']},
                         'files': {f['name']: bytes.fromhex(f['hex']) for f in p['files']}})
     return _POOL[1]
+
+
+if os.environ.get('C13_POOL'):
+    try:
+        load_pool(os.environ['C13_POOL'])  # data only; nothing of pybufrkit is executed
+    except Exception:
+        pass
 
 
 # ---------------------------------------------------------------------------------------------
@@ -290,8 +312,35 @@ def group_fingerprint(g):
     return {'key': key_str(g.key), 'nB': len(b), 'nD': len(dd), 'B': dig(b), 'D': dig(dd)}
 
 
+def group_state(g):
+    """cheap structural snapshot of the descriptor objects a table group shares with every template built from it"""
+    b = tuple((i, d.name, d.unit, d.scale, d.refval, d.nbits) for i, d in g.B.descriptors.items())
+    dd = tuple((i, d.name, tuple((type(m).__name__, m.id, len(getattr(m, 'members', None) or ())) for m in (d.members or ())))
+               for i, d in g.D.descriptors.items())
+    return (b, dd)
+
+
+def fresh_group_state(key):
+    from pybufrkit import tables
+    c = tables.TableGroupCache()
+    saved = tables.MAXIMUM_NUMBER_OF_CACHED_TABLE_GROUPS
+    tables.MAXIMUM_NUMBER_OF_CACHED_TABLE_GROUPS = 50
+    try:
+        return group_state(c.get(key))
+    finally:
+        tables.MAXIMUM_NUMBER_OF_CACHED_TABLE_GROUPS = saved
+
+
 def key_str(k):
     return '%s|%s' % ('/'.join(k.wmo_tables_sn), '/'.join(k.local_tables_sn) if k.local_tables_sn else '-')
+
+
+def ckey_str(k):
+    try:
+        a, b = k
+        return '%s|%s' % (','.join(map(str, a)), key_str(b))
+    except Exception:
+        return 'malformed-key:%r' % (k,)
 
 
 def tg_key(v, loc):
@@ -331,6 +380,25 @@ class Runner(object):
             tables.MAXIMUM_NUMBER_OF_CACHED_TABLE_GROUPS = limit
         self.coders = {}
         self.objs = {}
+        self.fresh_fp = {}
+
+    def audit(self):
+        """the table groups held by the process-wide cache still equal a fresh load of their keys (no cached
+        descriptor object was mutated by what ran so far); returns None or a description"""
+        cache = self.tables.TableGroupCacheManager._TABLE_GROUP_CACHE
+        for k, g in list(cache._groups.items()):
+            ks = key_str(k)
+            if ks not in self.fresh_fp:
+                self.fresh_fp[ks] = fresh_group_state(k)
+            st = group_state(g)
+            ref = self.fresh_fp[ks]
+            if st != ref:
+                if st[0] != ref[0]:
+                    diff = [(a, b) for a, b in zip(st[0], ref[0]) if a != b][:2]
+                    return 'cached table group %s: Table B descriptors differ from a fresh load of the key, e.g. %r' % (ks, diff)
+                diff = [(a, b) for a, b in zip(st[1], ref[1]) if a != b][:1]
+                return 'cached table group %s: Table D descriptors differ from a fresh load of the key, e.g. %r' % (ks, diff)
+        return None
 
     def coder(self, src, cfg):
         k = (src, cfg)
@@ -353,8 +421,8 @@ class Runner(object):
                         tag = core.err_tag(e)
                         raise
                     finally:
-                        runner.clog.append((_name, '%s|%s' % (','.join(map(str, template.original_descriptor_ids)), key_str(table_group.key)),
-                                            tag, ['%s|%s' % (','.join(map(str, a)), key_str(b)) for a, b in _mgr.cache], _mgr.cache_max))
+                        runner.clog.append((_name, ckey_str((tuple(template.original_descriptor_ids), table_group.key)),
+                                            tag, [ckey_str(k) for k in _mgr.cache], _mgr.cache_max))
                 mgr.get_or_compile = logged
             self.coders[k] = c
         return c
@@ -431,12 +499,17 @@ def run_history(task):
     pool = load_pool(task['pool'])
     r = Runner(pool, task.get('limit'))
     out = []
-    for op in task['ops']:
+    audit = None
+    for i, op in enumerate(task['ops']):
         try:
             out.append(r.do(op))
         except Exception as e:
             out.append(core.err_tag(e))
-    return {'out': out, 'log': r.log, 'clog': r.clog}
+        if audit is None and task.get('audit', True):
+            a = r.audit()
+            if a:
+                audit = (i, a)
+    return {'out': out, 'log': r.log, 'clog': r.clog, 'audit': audit}
 
 
 def run_fresh(task):
@@ -582,13 +655,15 @@ def kind_str(op):
     return op['k']
 
 
-def gen_view(rng, paths):
+def gen_view(rng, paths, hrng=None):
+    """a view request; the variety per message is kept small (4 paths, 3 metadata expressions chosen per message by `hrng`)
+    so that the same request comes back often within and across histories"""
     r = rng.random()
     if r < 0.55:
         return ['r', rng.choice(RENDERERS)]
     if r < 0.85 and paths:
         return ['q', rng.choice(paths)]
-    return ['md', rng.choice(MD_EXPRS)]
+    return ['md', rng.choice(MD_EXPRS[:4])]
 
 
 def gen_history(rng, pool, n, versions, heavy):
@@ -600,7 +675,17 @@ def gen_history(rng, pool, n, versions, heavy):
         mine.append(rng.choice(sorted(heavy)))
     jn = [j['name'] for j in pool['jsons']]
     myj = rng.sample(jn, rng.randint(1, 5))
-    cfgs = rng.sample(CFGS, rng.randint(1, 4))
+    cfgs_h = rng.sample(CFGS, rng.randint(2, 5))
+    assigned = pool.get('cfgs', {})
+
+    class _Cfgs(object):
+        """coder configurations usable for an input: those of this history that the run assigned to the input (the
+        assignment keeps the number of distinct operations, hence of reference interpreters, bounded)"""
+        def pick(self, m):
+            a = [c for c in assigned.get(m, CFGS) if c in cfgs_h] or assigned.get(m, CFGS)
+            return rng.choice(a)
+    pick = _Cfgs().pick
+    cfgs = cfgs_h
     ops = []
     recent = []
     while len(ops) < n:
@@ -618,22 +703,22 @@ def gen_history(rng, pool, n, versions, heavy):
             continue
         if r < 0.62:
             m = rng.choice(mine)
-            c = rng.choice(cfgs)
+            c = pick(m)
             ops.append({'k': 'proc', 'src': 'dec', 'c': c, 'm': m, 'wire': rng.random() < 0.75})
             recent.append(('dec', c, m))
         elif r < 0.74:
             m = rng.choice(mine)
-            c = rng.choice(cfgs)
+            c = pick(m)
             ops.append({'k': 'view', 'src': 'dec', 'c': c, 'm': m, 'v': gen_view(rng, pool['paths'].get(m, []))})
             recent.append(('dec', c, m))
         elif r < 0.86:
             m = rng.choice(myj)
-            c = rng.choice(cfgs)
+            c = pick(m)
             ops.append({'k': 'proc', 'src': 'enc', 'c': c, 'm': m, 'wire': rng.random() < 0.75})
             recent.append(('enc', c, m))
         elif r < 0.90:
             m = rng.choice(myj)
-            c = rng.choice(cfgs)
+            c = pick(m)
             ops.append({'k': 'view', 'src': 'enc', 'c': c, 'm': m, 'v': ['r', rng.choice(RENDERERS)]})
             recent.append(('enc', c, m))
         elif r < 0.93:
@@ -738,9 +823,23 @@ def evaluate_histories(ctx, mp, pool_path, pool, hists):
         for op in ops:
             distinct.setdefault(op_key(op), op)
     keys = sorted(distinct)
-    refs = dict(zip(keys, mp.map(run_fresh, [{'pool': pool_path, 'op': distinct[k]} for k in keys], chunksize=4)))
+    import time
+    t0 = time.time()
+    refs = dict(zip(keys, mp.map(run_fresh, [{'pool': pool_path, 'op': distinct[k]} for k in keys], chunksize=1)))
+    # cross-check: a sample of the operations in interpreters started from scratch ('spawn')
+    srng = ctx.rng('spawn-sample')
+    sample = srng.sample(keys, min(len(keys), 96 if ctx.tier == 'quick' else 960))
+    with multiprocessing.get_context('spawn').Pool(min(16, os.cpu_count() or 1), maxtasksperchild=1) as sp:
+        sres = sp.map(run_fresh, [{'pool': pool_path, 'op': distinct[k]} for k in sample], chunksize=1)
+    ctx.count('oracle:reference operations cross-checked in spawned interpreters', len(sample))
+    for k, r in zip(sample, sres):
+        if r != refs[k]:
+            ctx.violation('an operation gives different results as the first operation of two new processes (import-time state?): %s' % k,
+                          {'mode': 'history', 'limit': None, 'ops': [distinct[k]]}, signature={'kind': 'fresh-vs-fresh', 'op': kind_str(distinct[k])})
+    t1 = time.time()
     ctx.count('oracle:distinct-operations (fresh interpreter each)', len(keys))
     results = mp.map(run_history, [{'pool': pool_path, 'limit': limit, 'ops': ops} for limit, ops in hists], chunksize=1)
+    ctx.notes.append('timing: %d reference operations in fresh interpreters %.1fs, %d histories %.1fs' % (len(keys), t1 - t0, len(hists), time.time() - t1))
     logged = []
     for hi, ((limit, ops), res) in enumerate(zip(hists, results)):
         groups = {l[0] for l in res['log'] if l[0] != '#inval'}
@@ -761,6 +860,11 @@ def evaluate_histories(ctx, mp, pool_path, pool, hists):
         for op in ops:
             ctx.count('oracle:op:' + kind_str(op))
         logged.append((hi, limit, res))
+        if res.get('audit'):
+            i, what = res['audit']
+            ctx.violation('shared cached descriptors mutated: after operation %d (%s on %s) %s' % (i, kind_str(ops[i]), ops[i].get('m') or ops[i].get('f'), what),
+                          {'mode': 'history', 'limit': limit, 'ops': ops[:i + 1]},
+                          signature={'kind': 'cached-group-mutated', 'op': kind_str(ops[i]), 'input_class': pool_cls.get(ops[i].get('m') or ops[i].get('f'), '-')})
         for i, (op, o) in enumerate(zip(ops, res['out'])):
             ref = refs[op_key(op)]
             if o != ref:
@@ -788,7 +892,6 @@ def run(ctx):
                 'limit (limit 50: a repeated operation); distinct by the list of operations.')
     import logging
     logging.disable(logging.CRITICAL)
-    mp_ctx = multiprocessing.get_context('spawn')
     nproc = min(16, os.cpu_count() or 1)
     # pool of inputs
     pool = build_pool()
@@ -806,7 +909,10 @@ def run(ctx):
     versions = bundled_versions()
     heavy = {m['name'] for m in pool['msgs'] if len(m['hex']) > 2 * 12000}
     # every process of this pool executes exactly one task: a fresh interpreter per history and per reference operation
-    with mp_ctx.Pool(nproc, maxtasksperchild=1) as mp:
+    with pristine_pool(pool_path, nproc) as mp:
+        pr = mp.map(_probe, range(2 * nproc), chunksize=1)
+        if len({x[0] for x in pr}) != len(pr) or any(x[1] for x in pr):
+            raise core.MachineryError('worker processes are not one fresh process per task: %r' % (pr[:4],))
         # (a) cache-level correspondence
         check_cache_level(ctx, mp, ctx.rng('cache'))
         # corpus of past failures
@@ -819,11 +925,16 @@ def run(ctx):
         ncorpus = len(hists)
         # (b) histories
         rng = ctx.rng('histories')
+        prng = ctx.rng('paths')
+        npaths = 4 if ctx.tier == 'quick' else 8
+        ncfg = 2 if ctx.tier == 'quick' else 3
+        gpool = dict(pool, paths={m: prng.sample(ps, min(npaths, len(ps))) for m, ps in sorted(pool['paths'].items())},
+                     cfgs={x['name']: prng.sample(CFGS, ncfg) for x in pool['msgs'] + pool['jsons']})
         nh = 60 if ctx.tier == 'quick' else 600
         for i in range(nh):
             limit = rng.choice([1, 2, 3]) if (ctx.tier == 'quick' or i % 10) else 50
             n = rng.randint(20, 200)
-            ops = gen_history(rng, pool, n, versions, heavy)
+            ops = gen_history(rng, gpool, n, versions, heavy)
             if limit == 50:
                 # the real limit: load 60 distinct table groups so that the eviction loop runs at 50
                 locs = [None, ['0', '98_0', '1'], ['0', '98_0', '101']]
@@ -915,6 +1026,12 @@ def replay(ctx, path):
     pool_path = os.path.join(cdir, 'c13_pool_%s.json' % dig(pool))
     with open(pool_path, 'w') as f:
         json.dump(pool, f)
-    with mp_ctx.Pool(min(16, os.cpu_count() or 1), maxtasksperchild=1) as mp:
+    with pristine_pool(pool_path, min(16, os.cpu_count() or 1)) as mp:
         logged = evaluate_histories(ctx, mp, pool_path, pool, [(rp['limit'], rp['ops'])])
     compare_logs(ctx, logged, [(rp['limit'], rp['ops'])])
+
+
+def _probe(_):
+    """self-check of the pristine pool: (pid, table groups cached in this process, pool preloaded)"""
+    from pybufrkit import tables
+    return (os.getpid(), len(tables.TableGroupCacheManager._TABLE_GROUP_CACHE._groups), _POOL is not None)
